@@ -116,11 +116,11 @@ type recSink struct {
 func (s *recSink) Write(b []byte) (int, error) {
 	s.mu.Lock()
 	defer s.mu.Unlock()
-	if s.failAt > 0 && len(s.writes)+1 >= s.failAt {
-		return 0, errors.New("write: connection reset by peer")
+	fail := s.failAt > 0 && len(s.writes)+1 >= s.failAt
+	if !fail {
+		s.writes = append(s.writes, sinkWrite{int64(time.Since(s.start)), len(b)})
+		s.data = append(s.data, b...)
 	}
-	s.writes = append(s.writes, sinkWrite{int64(time.Since(s.start)), len(b)})
-	s.data = append(s.data, b...)
 	if len(s.delays) > 0 {
 		d := time.Duration(s.delays[s.nw%len(s.delays)])
 		s.nw++
@@ -129,6 +129,9 @@ func (s *recSink) Write(b []byte) (int, error) {
 			time.Sleep(d) // the receiver is slow: the write returns only after d
 			s.mu.Lock()
 		}
+	}
+	if fail {
+		return 0, errors.New("write: connection reset by peer")
 	}
 	return len(b), nil
 }
